@@ -394,74 +394,62 @@ regenerated from the Go sources on every run. `search pat s` = ClickHouse `match
 section Selection
 open Qryn Qryn.Prom
 
-/-- **select_exact.** For every list of at most 63 matchers (Go renders the HAVING constant as
-    `int64(1<<n)-1`), every label index and every fingerprint: the fingerprint is in the result of the
-    generated query exactly when (i) it has an index row of the admitted dates and type satisfying some
-    matcher and (ii) **for every matcher it has such a row satisfying that matcher** — matcher `=`/`!=`
-    compare the value, `=~`/`!~` apply `match` to the anchored pattern. No `NotSupportedError` for any of the
-    four match types. -/
-theorem select_exact (search : Bytes → Bytes → Bool) (table : String) (fromDate : Bytes) (tp : Int)
+/-- **select_exact.** For every list of at most 63 matchers (Go keeps the required bits in an `int64`), every label index
+    and every fingerprint: the fingerprint is in the result of the generated query exactly when (i) it has an index row
+    of the admitted dates and type, (ii) **for every matcher that rejects the empty value it has such a row satisfying
+    the matcher**, and (iii) **for every matcher that accepts the empty value none of its admitted rows with the
+    matcher's label violates it** — matcher `=`/`!=` compare the value, `=~`/`!~` apply `match` to the anchored pattern;
+    `full` is the regular-expression engine `_matcher.Matches("")` consults. No `NotSupportedError` for any of the four
+    match types. -/
+theorem select_exact (search full : Bytes → Bytes → Bool) (table : String) (fromDate : Bytes) (tp : Int)
     (ms : List Matcher) (h63 : ms.length ≤ 63) (tbl : List IdxRow) (f : Nat) :
-    ∃ q, fingerprintsQuery table fromDate tp ms = some q ∧
-      (f ∈ q.eval search Gen.PromSelect.shiftWidth tbl ↔ Selected search fromDate tp ms tbl f) :=
-  fpQuery_correct search _ table fromDate tp ms
+    ∃ q, fingerprintsQuery full table fromDate tp ms = some q ∧
+      (f ∈ q.eval search Gen.PromSelect.shiftWidth tbl ↔ Selected search full fromDate tp ms tbl f) :=
+  fpQuery_correct search full _ table fromDate tp ms
     (Nat.le_trans h63 (by decide : 63 ≤ Gen.PromSelect.shiftWidth)) h63 tbl f
 
-/-- the selection as the property states it: the selected fingerprints are exactly the stored series whose
-    label set satisfies every matcher in Prometheus' sense (an absent label has the empty value; `full pat s`
-    = s matches `^(?:pat)$`) -/
-def select_matches_prometheus_full : Prop :=
-  ∀ (search full : Bytes → Bytes → Bool), (∀ p s, search (anchor p) s = full p s) →
-  ∀ (table : String) (fromDate : Bytes) (tp : Int) (ms : List Matcher), ms ≠ [] → ms.length ≤ 63 →
-  ∀ (db : List Stored), WellFormed db → ∀ f,
-    ∃ q, fingerprintsQuery table fromDate tp ms = some q ∧
-      (f ∈ q.eval search Gen.PromSelect.shiftWidth (indexRows db) ↔
-        ∃ s ∈ db, s.fp = f ∧ admissibleS fromDate tp s = true ∧ promMatches full ms s = true)
-
-/-- **select_matches_prometheus_partial.** The full statement holds whenever no matcher accepts the empty
-    value (`hnoempty`; e.g. `l="v"`, `l=~"v.+"`, `l!=""`), assuming ClickHouse `match` on the anchored pattern
-    is the full match (`hanch`, about RE2, not about qryn): then index-row satisfaction and label-set
-    satisfaction coincide, for every database in which fingerprints identify series and label names are
-    unique within a series. (Recorded finding `C17/select-matcher-on-absent-label` for the rest.) -/
-theorem select_matches_prometheus_partial (search full : Bytes → Bytes → Bool)
+/-- **select_matches_prometheus** (the property's first sentence for PromQL, at full strength: the matcher SQL is exact).
+    For every matcher list (also the empty one, also matchers that accept the empty value: `{job!="x"}`, `{job=~".*"}`,
+    `{job=""}`, `{job!~"x"}`), every database in which fingerprints identify series and label names are unique within a
+    series, and every fingerprint: the generated index query selects the fingerprint exactly when it is a stored series
+    of the admitted dates and type **whose label set satisfies every matcher in Prometheus' sense** — an absent label has
+    the empty value; `full pat s` = s matches `^(?:pat)$`. `hanch` (about RE2, not about qryn): ClickHouse `match` on the
+    anchored pattern is that full match. `hrow`: the series can be found in the label index at all — some matcher rejects
+    the empty value (the PromQL parser demands one in every selector) or every stored series carries a label (Prometheus
+    stores no series with an empty label set).
+    After `fix: a PromQL matcher that accepts the empty value …` (recorded finding `C17/select-matcher-on-absent-label`
+    of the pinned tree: `Gen.PromSelect.absentLabel = "row-required"` makes this proof fail). -/
+theorem select_matches_prometheus (search full : Bytes → Bytes → Bool)
     (hanch : ∀ p s, search (anchor p) s = full p s)
-    (table : String) (fromDate : Bytes) (tp : Int) (ms : List Matcher) (hne : ms ≠ []) (h63 : ms.length ≤ 63)
-    (hnoempty : ∀ m ∈ ms, opHolds full m.type [] m.val = false)
-    (db : List Stored) (wf : WellFormed db) (f : Nat) :
-    ∃ q, fingerprintsQuery table fromDate tp ms = some q ∧
+    (table : String) (fromDate : Bytes) (tp : Int) (ms : List Matcher) (h63 : ms.length ≤ 63)
+    (db : List Stored) (wf : WellFormed db)
+    (hrow : (∃ m ∈ ms, opHolds full m.type [] m.val = false) ∨ (∀ s ∈ db, s.labels ≠ [])) (f : Nat) :
+    ∃ q, fingerprintsQuery full table fromDate tp ms = some q ∧
       (f ∈ q.eval search Gen.PromSelect.shiftWidth (indexRows db) ↔
         ∃ s ∈ db, s.fp = f ∧ admissibleS fromDate tp s = true ∧ promMatches full ms s = true) := by
-  obtain ⟨q, hq, hiff⟩ := select_exact search table fromDate tp ms h63 (indexRows db) f
-  exact ⟨q, hq, hiff.trans (selected_iff_prom search full hanch fromDate tp ms hne hnoempty db wf f)⟩
+  obtain ⟨q, hq, hiff⟩ := select_exact search full table fromDate tp ms h63 (indexRows db) f
+  exact ⟨q, hq, hiff.trans (selected_iff_prom search full hanch fromDate tp ms db wf hrow f)⟩
 
-/-- **select_matches_prometheus_counterexample.** `{__name__="up", job!="x"}` over the one series
-    `{__name__="up"}`: Prometheus selects it (no `job` label, "" ≠ "x"), the index query does not (there is
-    no index row with key `job`). Kernel-checked. -/
-theorem select_matches_prometheus_counterexample : ¬ select_matches_prometheus_full := by
-  intro h
-  -- __name__ = [95,95,110,97,109,101,95,95], up = [117,112], job = [106,111,98], x = [120]
-  have := h (fun _ _ => false) (fun _ _ => false) (fun _ _ => rfl) "time_series_gin" [50] 2
-    [⟨[95, 95, 110, 97, 109, 101, 95, 95], .eq, [117, 112]⟩, ⟨[106, 111, 98], .ne, [120]⟩]
-    (by simp) (by decide)
-    [⟨7, [([95, 95, 110, 97, 109, 101, 95, 95], [117, 112])], [50], 2⟩]
-    ⟨by decide, by decide⟩ 7
-  obtain ⟨q, hq, hiff⟩ := this
-  have hq' : q = ⟨"time_series_gin", [50], 2,
-      [.and2 (.cmpStr "==" "key" [95, 95, 110, 97, 109, 101, 95, 95]) (.cmpStr "==" "val" [117, 112]),
-       .and2 (.cmpStr "==" "key" [106, 111, 98]) (.cmpStr "!=" "val" [120])]⟩ := by
-    have : fingerprintsQuery "time_series_gin" [50] 2
-        [⟨[95, 95, 110, 97, 109, 101, 95, 95], .eq, [117, 112]⟩, ⟨[106, 111, 98], .ne, [120]⟩] = some
-        ⟨"time_series_gin", [50], 2,
-          [.and2 (.cmpStr "==" "key" [95, 95, 110, 97, 109, 101, 95, 95]) (.cmpStr "==" "val" [117, 112]),
-           .and2 (.cmpStr "==" "key" [106, 111, 98]) (.cmpStr "!=" "val" [120])]⟩ := by
-      simp only [fingerprintsQuery, condsOf, condOf, lookup_eq, lookup_ne, fnOf_Eq, matcherVal,
-        anchored_eq, anchored_ne]
-      rfl
-    rw [this] at hq
-    exact (Option.some.inj hq).symm
-  subst hq'
-  have hmem := hiff.mpr ⟨_, List.mem_singleton.mpr rfl, rfl, by decide, by decide⟩
-  revert hmem
+/-- **select_absent_label_witness.** The witness of the former finding, kernel-checked on the model of the fixed code:
+    `{__name__="up", job!="x"}` over the series 7 = `{__name__="up"}` and 9 = `{__name__="up", job="x"}` selects 7 (no
+    `job` label, "" ≠ "x") and not 9; the query keeps the rows that decide a bit (`job="x"` is the inverted matcher) and
+    asks for the bit set 01. -/
+theorem select_absent_label_witness :
+    (fingerprintsQuery (fun _ _ => false) "time_series_gin" [50] 2
+      [⟨[95, 95, 110, 97, 109, 101, 95, 95], .eq, [117, 112]⟩, ⟨[106, 111, 98], .ne, [120]⟩]).map (fun q =>
+        (q.required, q.eval (fun _ _ => false) 64 (indexRows
+          [⟨7, [([95, 95, 110, 97, 109, 101, 95, 95], [117, 112])], [50], 2⟩,
+           ⟨9, [([95, 95, 110, 97, 109, 101, 95, 95], [117, 112]), ([106, 111, 98], [120])], [50], 2⟩])))
+      = some ([true, false], [7]) := by
+  decide
+
+/-- with every matcher accepting the empty value there is neither the OR in WHERE nor a required bit: `{job!="x"}` alone
+    selects the series without `job` (kernel-checked) -/
+theorem select_only_optional_witness :
+    (fingerprintsQuery (fun _ _ => false) "t" [50] 2 [⟨[106, 111, 98], .ne, [120]⟩]).map (fun q =>
+        (q.useOr, q.eval (fun _ _ => false) 64 (indexRows
+          [⟨7, [([97], [49])], [50], 2⟩, ⟨9, [([97], [49]), ([106, 111, 98], [120])], [50], 2⟩])))
+      = some (false, [7]) := by
   decide
 
 /-- **scan_window.** The raw-sample scan keeps exactly the samples with `from ≤ timestamp_ns ≤ to`
@@ -491,7 +479,7 @@ theorem shift_as_written_loses_ninth_matcher :
     Bits.groupOrW 8 [[true, true, true, true, true, true, true, true, true]] = 255 ∧
     Bits.groupOrW 64 [[true, true, true, true, true, true, true, true, true]] = 2 ^ 9 - 1 := by decide
 
--- non-vacuity of the hypotheses of the partial theorem
+-- non-vacuity of the hypotheses of `select_matches_prometheus`
 example : ∃ full : Bytes → Bytes → Bool, ∃ search : Bytes → Bytes → Bool, (∀ p s, search (anchor p) s = full p s) ∧
     opHolds full .eq [] [117, 112] = false :=
   ⟨fun _ _ => true, fun _ _ => true, fun _ _ => rfl, by decide⟩
@@ -511,17 +499,35 @@ open Qryn Qryn.Prof
     and fingerprint: no "unknown operator" error, and the fingerprint is selected exactly when
     (i) it has an index row inside the date range on which **every pseudo-label selector holds**
     (`__name__`/`__period_type__`/`__period_unit__` on the parts of `type_id`, `service_name` on its column,
-    `__sample_type__`/`__sample_unit__`/`__profile_type__` on *some* element of `sample_types_units`) and,
-    if there are key/value selectors, one of them holds on that row; and (ii) **for every key/value selector
-    it has such a row whose (key, val) satisfies it**. -/
-theorem prof_selector_exact (re : Bytes → Bytes → Bool) (table : String) (fromDate toDate : Bytes)
+    `__sample_type__`/`__sample_unit__`/`__profile_type__` on *some* element of `sample_types_units`);
+    (ii) **for every key/value selector that rejects the empty value it has such a row whose (key, val) satisfies it**;
+    (iii) **for every key/value selector that accepts the empty value none of its such rows with the selector's key
+    violates it**. `gre` = Go's `regexp` asked by `acceptsEmpty` whether the anchored pattern matches "". -/
+theorem prof_selector_exact (re gre : Bytes → Bytes → Bool) (table : String) (fromDate toDate : Bytes)
     (sels : List Selector) (h63 : (sels.filter (fun s => !isGlobal s)).length ≤ 63)
     (tbl : List PRow) (f : Nat) :
-    ∃ q, plan table fromDate toDate sels = some q ∧
-      (f ∈ q.eval re Gen.PromSelect.shiftWidth tbl ↔ Prof.Selected re fromDate toDate sels tbl f) :=
-  plan_correct re _ table fromDate toDate sels
+    ∃ q, plan gre table fromDate toDate sels = some q ∧
+      (f ∈ q.eval re Gen.PromSelect.shiftWidth tbl ↔ Prof.Selected re gre fromDate toDate sels tbl f) :=
+  plan_correct re gre _ table fromDate toDate sels
     (Nat.le_trans h63 (by decide : 63 ≤ Gen.PromSelect.shiftWidth)) h63 tbl f
 
+/-- **prof_selector_matches_labels** (the property's first sentence for Pyroscope, at full strength). For every selector
+    list, every database of profile series in which fingerprints identify series, label names are unique within a series
+    and every series carries a label (one `profiles_series_gin` row per label, each with the series columns), and every
+    fingerprint: the selector query selects the fingerprint exactly when it is a stored series inside the date range
+    **whose pseudo-labels and label set satisfy every selector** — a label the series does not have has the empty value
+    (`{region!="x"}`, `{region=~".*"}`, `{region=""}`, `{region!~"x"}` select the series without `region`). `hemp`: Go's
+    `regexp` and ClickHouse `match` agree on whether an (anchored) pattern matches the empty string.
+    After `fix: a Pyroscope selector that accepts the empty value …` (recorded finding `C17/prof-matcher-on-absent-label`
+    of the pinned tree: `Gen.ProfSelect.absentLabel = "row-required"` makes this proof fail). -/
+theorem prof_selector_matches_labels (re gre : Bytes → Bytes → Bool) (hemp : ∀ p, gre p [] = re p [])
+    (table : String) (fromDate toDate : Bytes) (sels : List Selector)
+    (h63 : (sels.filter (fun s => !isGlobal s)).length ≤ 63) (db : List PStored) (wf : PWellFormed db) (f : Nat) :
+    ∃ q, plan gre table fromDate toDate sels = some q ∧
+      (f ∈ q.eval re Gen.PromSelect.shiftWidth (pIndexRows db) ↔
+        ∃ s ∈ db, s.fp = f ∧ dateOkS fromDate toDate s = true ∧ profMatches re sels s) := by
+  obtain ⟨q, hq, hiff⟩ := prof_selector_exact re gre table fromDate toDate sels h63 (pIndexRows db) f
+  exact ⟨q, hq, hiff.trans (selected_iff_labels re gre hemp fromDate toDate sels db wf f)⟩
 
 /-- **prof_pseudo_label_meaning.** What each pseudo-label selector means on an index row, spelled out:
     `type_id` is `name:period_type:period_unit` (ctrl/qryn/sql/profiles.sql), `sample_types_units` the list of
@@ -560,19 +566,23 @@ theorem prof_regex_anchored (n v : Bytes) :
     simp [selVal, Prof.Op.str, Gen.ProfSelect.anchoredOps, Gen.ProfSelect.valuePrefix, Gen.ProfSelect.valueSuffix,
       Prom.ascii] <;> decide
 
-/-- **prof_matcher_on_absent_label_counterexample.** `{region!="x"}` over the one profile series with the only label
-    `env="p"` (fingerprint 5, inside the date range): Pyroscope selects it (no `region` label, "" ≠ "x"); the
-    query does not — there is no index row with key `region` (`prof_selector_exact`, clause (ii)). Kernel-checked.
-    The recorded finding `C17/prof-matcher-on-absent-label`. (region = [114,101,103,105,111,110], env = [101,110,118].) -/
-theorem prof_matcher_on_absent_label_counterexample :
-    (plan "t" [49] [51] [⟨[114, 101, 103, 105, 111, 110], .ne, [120]⟩]).map (fun q =>
-      q.eval (fun _ _ => false) 64 [⟨[50], [101, 110, 118], [112], [99, 112, 117], [], [], 5⟩]) = some [] ∧
-    opHoldsP (fun _ _ => false) .ne (Prom.labelValue [([101, 110, 118], [112])] [114, 101, 103, 105, 111, 110]) [120] = true := by
+/-- **prof_absent_label_witness.** The witness of the former finding, kernel-checked on the model of the fixed code:
+    `{region!="x"}` over the profile series 5 (only label `env="p"`) and 6 (`region="x"`), inside the date range: series 5
+    is selected (no `region` label, "" ≠ "x"), series 6 is not; the clause is the inverted selector (`region="x"`), no bit
+    is required and there is no OR in WHERE. (region = [114,101,103,105,111,110], env = [101,110,118].) -/
+theorem prof_absent_label_witness :
+    (plan (fun _ _ => false) "t" [49] [51] [⟨[114, 101, 103, 105, 111, 110], .ne, [120]⟩]).map (fun q =>
+      (q.kvRequired, q.useOr, q.eval (fun _ _ => false) 64
+        [⟨[50], [101, 110, 118], [112], [99, 112, 117], [], [], 5⟩,
+         ⟨[50], [114, 101, 103, 105, 111, 110], [120], [99, 112, 117], [], [], 6⟩])) = some ([false], false, [5]) := by
   decide
+
+example : PWellFormed [⟨5, [([101, 110, 118], [112])], [50], [99, 112, 117], [], []⟩] :=
+  ⟨by decide, by decide, by decide⟩
 
 -- non-vacuity / a concrete run: {__name__="cpu", __sample_type__=~"s", job="a"}
 -- type_id = "cpu:p:u" = [99,112,117,58,112,58,117]
-example : ((plan "t" [49] [51] [⟨[95, 95, 110, 97, 109, 101, 95, 95], .eq, [99, 112, 117]⟩,
+example : ((plan (fun _ _ => true) "t" [49] [51] [⟨[95, 95, 110, 97, 109, 101, 95, 95], .eq, [99, 112, 117]⟩,
       ⟨[106, 111, 98], .eq, [97]⟩]).map (fun q =>
         q.eval (fun _ _ => true) 64
           [⟨[50], [106, 111, 98], [97], [99, 112, 117, 58, 112, 58, 117], [], [], 5⟩,
